@@ -906,7 +906,11 @@ Definition step0 (s : state) (o : op) : R :=
      then refuses to connect because the object is not disconnected) *)
   | OpCands eps => ret (set_cands eps s)
   | OpConnectClient now => let '(s1, o, rc) := connect_client now s in (s1, o ++ [ORet rc])
-  | OpConnectRaw now => let '(s1, o, rc) := connect_client now (set_is_raw true s) in (s1, o ++ [ORet rc])
+  | OpConnectRaw now =>
+      match st s with
+      | Disconnected => let '(s1, o, rc) := connect_client now (set_is_raw true s) in (s1, o ++ [ORet rc])
+      | _ => (s, [ORet XMPP_EINVOP])
+      end
   | OpConnectComponent now => let '(s1, o, rc) := connect_component now s in (s1, o ++ [ORet rc])
   | OpRun now rd => run_once now rd s
   | OpDisconnect now => ret (xmpp_disconnect now s)
